@@ -10,7 +10,7 @@ old='\t\tif action == "" {\n\t\t\taction = DefaultAction\n\t\t}\n\t\treturn acti
 assert old in s
 open(p,'w').write(s.replace(old,'\t\treturn action, nil\n\t}\n'))
 PY
-printf 'finding: property=C18 obligation=runBatch/ensures#5[C18] empty batch whose post returns "" yields ("", nil)\nfinding: property=C18 obligation=runBatch/ensures#6[C18] same input\n' > $O/known_findings.txt
+printf 'finding: property=C18 obligation=runBatch/ensures#5[C10,C18] empty batch whose post returns "" yields ("", nil)\nfinding: property=C18 obligation=runBatch/ensures#6[C18] same input\n' > $O/known_findings.txt
 /verif/bin/flytvc check -property C18 -repo $D -out $O -no-replay | grep -v "^flytvc"; echo "exit=$?"
 echo "--- now also break Run's normalisation: must still be reported"
 python3 - $D <<'PY'
